@@ -169,6 +169,33 @@ theorem float64_as_float32 (F : FloatOps) (p : Bytes) (y : Nat) (h : y < 2 ^ 64)
       else if F.ltNegMax y ∨ F.gtMax y then .err .overflow 0
       else .ok (F.narrow y, 9) := decodeFloat32_enc64 F p y h
 
+/-- the same for the concrete conversions, with the condition spelled out on the bit pattern: an
+overflow error exactly when the stored float64 is finite with a magnitude above MaxFloat32; every
+other pattern (in range - rounded to nearest even when it is not exactly a float32 -, ±Inf, NaN) is
+narrowed -/
+theorem float64_as_float32_ieee (p : Bytes) (y : Nat) (h : y < 2 ^ 64) :
+    decodeFloat32 IEEE.ieee (p ++ encFloat64 y) =
+      if IEEE.maxF32 < y % 2 ^ 63 ∧ y % 2 ^ 63 < 2047 * 2 ^ 52 then .err .overflow 0
+      else .ok (IEEE.narrow y, 9) := by
+  rw [float64_as_float32 IEEE.ieee p y h]
+  have hn : IEEE.ieee.narrow y = IEEE.narrow y := rfl
+  rw [hn]
+  show (if IEEE.isInf y = true then _ else if IEEE.ltNegMax y = true ∨ IEEE.gtMax y = true then _ else _) = _
+  unfold IEEE.isInf IEEE.ltNegMax IEEE.gtMax IEEE.isNaN64 IEEE.maxF32
+  by_cases c1 : y % 2 ^ 63 = 2047 * 2 ^ 52
+  · have c2 : ¬ (0x47EFFFFFE0000000 < y % 2 ^ 63 ∧ y % 2 ^ 63 < 2047 * 2 ^ 52) := by omega
+    simp only [c1, decide_true, ↓reduceIte]
+    rw [if_neg (by omega)]
+  · by_cases c3 : y % 2 ^ 63 > 2047 * 2 ^ 52
+    · have c2 : ¬ (0x47EFFFFFE0000000 < y % 2 ^ 63 ∧ y % 2 ^ 63 < 2047 * 2 ^ 52) := by omega
+      simp [c1, c3, c2]
+    · by_cases c4 : 0x47EFFFFFE0000000 < y % 2 ^ 63
+      · have c2 : 0x47EFFFFFE0000000 < y % 2 ^ 63 ∧ y % 2 ^ 63 < 2047 * 2 ^ 52 := by omega
+        have hs : y / 2 ^ 63 % 2 = 0 ∨ y / 2 ^ 63 % 2 = 1 := by omega
+        rcases hs with hs | hs <;> simp [c1, c3, c4, c2, hs]
+      · have c2 : ¬ (0x47EFFFFFE0000000 < y % 2 ^ 63 ∧ y % 2 ^ 63 < 2047 * 2 ^ 52) := by omega
+        simp [c1, c3, c4, c2]
+
 /-! ### non-vacuity: concrete instances of the hypotheses -/
 
 example : fitsI .w64 (-9223372036854775808) ∧ ¬ fitsI .w32 (-9223372036854775808) := by decide
